@@ -68,6 +68,42 @@ class HBad:
         return 'HBad!'
 
 
+class HState:
+    """printed through a predicate that looks at instance state"""
+
+    def __init__(self, flag, name='s'):
+        self.flag = flag
+        self.name = name
+
+    def __repr__(self):
+        return 'HState<%s>' % self.name
+
+
+class MyInt(int):
+    pass
+
+
+class MyStr(str):
+    pass
+
+
+class MyList(list):
+    pass
+
+
+def _twin(n):
+    class Twin:
+        def __init__(self, x):
+            self.x = x
+
+        def __repr__(self):
+            return 'Twin%d!' % n
+    return Twin
+
+
+TwinA, TwinB = _twin(1), _twin(2)
+
+
 class HMut:
     """registered printer that reads (only reads) every container it is given"""
 
@@ -140,6 +176,11 @@ def build_corpus():
     add('stat', 'cache', os.stat_result(tuple(range(10))), dict(width=40))
     add('float_info', 'cache', sys.float_info)
     add('version_info', 'cache', sys.version_info)
+    # several struct-sequence classes with the same number of fields
+    add('times', 'cache', os.times_result((1.0, 2.0, 3.0, 4.0, 5.0)))
+    add('terminal_size', 'cache', os.terminal_size((80, 24)))
+    add('statvfs', 'cache', os.statvfs_result(tuple(range(10))), dict(width=40))
+    add('struct_pair', 'cache', [sys.version_info, os.times_result((1.0, 2.0, 3.0, 4.0, 5.0))], dict(width=30))
     add('datetime', 'time', datetime.datetime(2020, 1, 2, 3, 4, tzinfo=datetime.timezone.utc))
     add('datetime_naive', 'time', datetime.datetime(2020, 1, 2, 3, 4, 5, 6))
     add('timedelta', 'time', datetime.timedelta(days=800, seconds=3))
@@ -178,6 +219,48 @@ def build_corpus():
         dict(sort_dict_keys=True))
     add('sorted_nested', 'sort', {'z': {2: 'b', 1: 'a'}, 'y': [{'q': 1, 'p': 2}]}, dict(sort_dict_keys=True, width=10))
     add('sorted_incomparable', 'sort', {1j: 'a', 2j: 'b', 'x': 0, 3: 1}, dict(sort_dict_keys=True), idfree=False)
+    # -- values that compare equal (often hash equal) but must print differently
+    import decimal
+    import fractions
+
+    class Col2(enum.Enum):
+        R = 1
+        G = 2
+    add('zero_pos', 'equal', 0.0)
+    add('zero_neg', 'equal', -0.0)
+    add('zeros', 'equal', [0.0, -0.0, 0, False])
+    add('one_int', 'equal', 1)
+    add('one_float', 'equal', 1.0)
+    add('one_true', 'equal', True)
+    add('ones', 'equal', [1, 1.0, True, MyInt(1), complex(1, 0), decimal.Decimal(1), fractions.Fraction(1, 1)])
+    add('myint', 'equal', MyInt(1))
+    add('mystr', 'equal', MyStr('x' * 100))
+    add('mystr_short', 'equal', [MyStr('leaf'), 'leaf'])
+    add('mylist', 'equal', MyList([1, 2.5, None, True, ...]))
+    add('tuple_like_nt', 'equal', (1, 'x'))
+    add('set_one', 'equal', {1})
+    add('dict_ab', 'equal', {'a': 1, 'b': 2})
+    add('dict_counter_like', 'equal', {'a': 2, 'b': 1})
+    add('int3', 'equal', 3)
+    add('enum2', 'equal', [Col2.R, Col.R])
+    add('bytes_vs_bytearray', 'equal', [b'ab', bytearray(b'ab')])
+    add('twin_a', 'equal', TwinA(1))
+    add('twin_b', 'equal', TwinB(1))
+    add('nt_other', 'equal', collections.namedtuple('NT', 'a b')(1, 'x'))
+    # -- instance-dependent predicate
+    add('state_on', 'state', HState(True, 'on'))
+    add('state_off', 'state', HState(False, 'off'))
+    add('state_mixed', 'state', [HState(False, 'off'), HState(True, 'on')])
+    add('state_mixed2', 'state', [HState(True, 'on'), HState(False, 'off')])
+    # -- one and the same object under different settings
+    same = {'k': [1, 2, 3, {'z': 1, 'a': [4, [5, [6]]]}], 'j': 'word ' * 12}
+    add('same_default', 'same', same)
+    add('same_w20', 'same', same, dict(width=20))
+    add('same_indent2', 'same', same, dict(indent=2, width=30))
+    add('same_depth1', 'same', same, dict(depth=1))
+    add('same_seq2', 'same', same, dict(max_seq_len=2))
+    add('same_sorted', 'same', same, dict(sort_dict_keys=True))
+    add('same_ribbon', 'same', same, dict(width=60, ribbon_width=15))
     add('truncated', 'limits', list(range(30)), dict(max_seq_len=5))
     add('truncated_dict', 'limits', {i: i for i in range(10)}, dict(max_seq_len=2))
     add('truncated_set', 'limits', set(range(10)), dict(max_seq_len=3))
@@ -201,6 +284,18 @@ def register_harness():
     def pbad(v, ctx):
         raise ValueError('x')
 
+    @register_pretty(predicate=lambda v: isinstance(v, HState) and v.flag)
+    def pstate(v, ctx):
+        return pretty_call(ctx, type(v), v.flag, name=v.name)
+
+    @register_pretty(TwinA)
+    def ptwin_a(v, ctx):
+        return pretty_call(ctx, 'TwinA', v.x)
+
+    @register_pretty(TwinB)
+    def ptwin_b(v, ctx):
+        return pretty_call(ctx, 'TwinB', x=v.x)
+
     @register_pretty(HMut)
     def pmut(v, ctx):
         return pretty_call(ctx, type(v), *[sorted(x) for x in v.a])
@@ -216,8 +311,6 @@ def setup(fresh=True):
         kind, r = core.in_fork(lambda i=i: call(i), 60)
         if kind != 'ok':
             raise core.HarnessError('reference for %s failed: %s' % (CORPUS[i]['name'], r))
-        if not r[1]:
-            raise core.HarnessError('fingerprint unstable on first print of %s' % CORPUS[i]['name'])
         refs.append(r)
     REF[:] = refs
     if fresh:
